@@ -475,21 +475,41 @@ pub fn eval(job: &Job) -> JobResult {
         b.max_branches = 2_000_000;
         b.log = false;
         model_calls += 1;
-        b.check(move || {
-            let mut c = cc.lock().unwrap();
-            c.2 += 1;
-            for seq in batch.iter() {
-                let (lr, sr) = run(init, seq, &vals);
-                c.0 += 1;
-                c.1 += seq.len() as u64 + 1;
-                if lr != sr {
-                    let mut m = mm.lock().unwrap();
-                    if m.len() < 5 {
-                        m.push((seq.clone(), lr, sr));
+        let iters_here = Arc::new(std::sync::atomic::AtomicUsize::new(0));
+        let ih = iters_here.clone();
+        // a single-threaded model has exactly one execution: the run is cut after the third
+        // iteration of a chunk (a decision point in single-threaded code would otherwise multiply
+        // the iterations by the number of sequences in the chunk); the surplus is reported below
+        let r = std::panic::catch_unwind(std::panic::AssertUnwindSafe(|| {
+            b.check(move || {
+                let k = ih.fetch_add(1, SeqCst);
+                if k >= 3 {
+                    panic!("VMC_C12_EXTRA_ITERATIONS");
+                }
+                let mut c = cc.lock().unwrap_or_else(|e| e.into_inner());
+                c.2 += 1;
+                for seq in batch.iter() {
+                    let (lr, sr) = run(init, seq, &vals);
+                    c.0 += 1;
+                    c.1 += seq.len() as u64 + 1;
+                    if lr != sr {
+                        let mut m = mm.lock().unwrap_or_else(|e| e.into_inner());
+                        if m.len() < 5 {
+                            m.push((seq.clone(), lr, sr));
+                        }
                     }
                 }
+            })
+        }));
+        if let Err(p) = r {
+            let msg = p.downcast_ref::<&str>().map(|s| s.to_string()).or_else(|| p.downcast_ref::<String>().cloned()).unwrap_or_default();
+            if !msg.contains("VMC_C12_EXTRA_ITERATIONS") {
+                let mut m = mismatches.lock().unwrap_or_else(|e| e.into_inner());
+                if m.len() < 5 {
+                    m.push((vec![], vec![format!("loom panicked: {}", msg.lines().next().unwrap_or(""))], vec!["no panic".into()]));
+                }
             }
-        });
+        }
     };
 
     // loom's vector clocks are u16 and every operation advances one: keep a model call well
@@ -518,19 +538,68 @@ pub fn eval(job: &Job) -> JobResult {
         }
     }
     run_batch(d1);
-    // depth 2..=depth with SeqCst orderings, batched by first op
+    // depth 2..=depth, batched by first op: once with SeqCst orderings and once with Relaxed ones
+    // (loom applies extra rules to SeqCst accesses, which can mask a wrong candidate set)
+    let relax = |op: SOp| -> SOp {
+        match op {
+            SOp::Load(_) => SOp::Load(Relaxed),
+            SOp::Store(v, _) => SOp::Store(v, Relaxed),
+            SOp::Swap(v, _) => SOp::Swap(v, Relaxed),
+            SOp::Cx(c, n, _, _) => SOp::Cx(c, n, Relaxed, Relaxed),
+            SOp::Cxw(c, n, _, _) => SOp::Cxw(c, n, Relaxed, Relaxed),
+            SOp::Cas(c, n, _) => SOp::Cas(c, n, Relaxed),
+            SOp::Fadd(v, _) => SOp::Fadd(v, Relaxed),
+            SOp::Fsub(v, _) => SOp::Fsub(v, Relaxed),
+            SOp::Fand(v, _) => SOp::Fand(v, Relaxed),
+            SOp::Fnand(v, _) => SOp::Fnand(v, Relaxed),
+            SOp::For(v, _) => SOp::For(v, Relaxed),
+            SOp::Fxor(v, _) => SOp::Fxor(v, Relaxed),
+            SOp::Fmax(v, _) => SOp::Fmax(v, Relaxed),
+            SOp::Fmin(v, _) => SOp::Fmin(v, Relaxed),
+            SOp::FupdSome(v, _, _) => SOp::FupdSome(v, Relaxed, Relaxed),
+            SOp::FupdNone(_, _) => SOp::FupdNone(Relaxed, Relaxed),
+            o => o,
+        }
+    };
+    // ops that matter for "which store does a later access see": used for depth 3 when the full
+    // alphabet only goes to depth 2
+    let few = |v: usize| v == 0 || v == 1 || v + 1 == vals.len();
+    let core: Vec<SOp> = alpha
+        .iter()
+        .cloned()
+        .filter(|o| match *o {
+            SOp::Load(_) | SOp::Unsync | SOp::FupdNone(_, _) => true,
+            SOp::Store(v, _) | SOp::WithMut(v) | SOp::Swap(v, _) | SOp::Fadd(v, _) => few(v),
+            SOp::Cx(c, n, _, _) => few(c) && few(n),
+            _ => false,
+        })
+        .collect();
     if depth >= 2 {
-        for &a in &alpha {
-            let mut batch = vec![];
-            for &b in &alpha {
-                batch.push(vec![a, b]);
-                if depth >= 3 {
-                    for &c in &alpha {
-                        batch.push(vec![a, b, c]);
+        for relaxed in [false, true] {
+            let f = |o: SOp| if relaxed { relax(o) } else { o };
+            for &a in &alpha {
+                let mut batch = vec![];
+                for &b in &alpha {
+                    batch.push(vec![f(a), f(b)]);
+                    if depth >= 3 {
+                        for &c in &alpha {
+                            batch.push(vec![f(a), f(b), f(c)]);
+                        }
                     }
                 }
+                run_batch(batch);
             }
-            run_batch(batch);
+            if depth == 2 {
+                for &a in &core {
+                    let mut batch = vec![];
+                    for &b in &core {
+                        for &c in &core {
+                            batch.push(vec![f(a), f(b), f(c)]);
+                        }
+                    }
+                    run_batch(batch);
+                }
+            }
         }
     }
     // long sequences: n modifications (the store history is a ring of 7) followed by every
@@ -550,28 +619,31 @@ pub fn eval(job: &Job) -> JobResult {
                     })
                     .collect();
                 batch.push(prefix.clone());
-                for &a in &inspect {
-                    let mut s1 = prefix.clone();
-                    s1.push(a);
-                    batch.push(s1.clone());
-                    for &b in &[SOp::Load(SeqCst), SOp::Unsync] {
-                        let mut s2 = s1.clone();
-                        s2.push(b);
-                        batch.push(s2);
+                for relaxed in [false, true] {
+                    let prefix: Vec<SOp> = if relaxed { prefix.iter().map(|o| relax(*o)).collect() } else { prefix.clone() };
+                    for &a in &inspect {
+                        let mut s1 = prefix.clone();
+                        s1.push(if relaxed { relax(a) } else { a });
+                        batch.push(s1.clone());
+                        for &b in &[SOp::Load(if relaxed { Relaxed } else { SeqCst }), SOp::Unsync] {
+                            let mut s2 = s1.clone();
+                            s2.push(b);
+                            batch.push(s2);
+                        }
                     }
                 }
             }
         }
         run_batch(batch);
     }
-    let c = counts.lock().unwrap();
+    let c = counts.lock().unwrap_or_else(|e| e.into_inner());
     res.states = c.0.max(1);
     res.transitions = c.1.max(1);
     res.loom_iterations = c.2;
     res.traces_validated = c.0;
     res.nontrivial = true;
     res.verdict = "Ok".into();
-    let m = mismatches.lock().unwrap();
+    let m = mismatches.lock().unwrap_or_else(|e| e.into_inner());
     if c.2 != model_calls {
         res.violations.push(Viol { kind: "extra_iterations".into(), detail: format!("{} init#{}", ty, init), expected: "a single-threaded model takes exactly one iteration".into(), observed: format!("{} iterations in {} model calls", c.2, model_calls), witness: json!({}) });
     }
